@@ -35,7 +35,9 @@ RULE = ('every spec of: [cross] blocks 1..3 x variables per block 1..12 x value 
         '2..3 differing from the others in porosity / permeability / sequence numbers (every position); [styles] the '
         'full 12-style cross of the reference writer on a reduced cross; [reuse] reader object that has already read a '
         'TOUGHREACT / TOUGH2 file re-used through read() (blocks 1..2 x nvar {2,5} x 3 permeability settings x 4 '
-        'timing/reset); [shipped] the 7 shipped files, and 4 ordered pairs of them read into one object. Each spec: '
+        'timing/reset); [negexp3] a negative three-digit-exponent value at each position of records of 1..8 (and 9, 12) '
+        'variables; [trnoperm] TOUGHREACT flavour without permeabilities; [order] order-independence passes; '
+        '[shipped] the 7 shipped files, and 4 ordered pairs of them read into one object. Each spec: '
         'library write -> reference reader; library write -> library read -> compare -> rewrite byte-identical; '
         'reference writer (Fortran styles) -> library read.  Non-trivial = at least one block; distinct = distinct spec.')
 ASSUMPTIONS = [
@@ -45,8 +47,9 @@ ASSUMPTIONS = [
     'reader contract: num_variables is None (<= 4 variables) or exactly the number of variables of every block; '
     'num_variables larger than a block has is outside the contract (known to spin at end of file) and mixed variable '
     'counts with num_variables set are not enumerated',
-    'negative values with a three-digit exponent need 21 columns at 13 decimals: not enumerated (the writer reduces '
-    'their precision by design); every other value fits its field at the format precision',
+    'a negative value with a three-digit exponent needs 21 columns at 13 decimals: the writer reduces the precision '
+    'of that one value by design, so it is compared to 13 significant digits; every other value fits its field at '
+    'the format precision and is compared to 14; the record must stay within 80 columns',
     'block names are in the form the library keeps in memory (what the simulator prints as A3,I2 mapped through the '
     'blank-to-zero rule): names like "abc05", which the simulator itself prints as "abc 5", are not enumerated',
     'the TOUGHREACT flavour is observable in a file only through permeabilities: TOUGHREACT cases have at least one '
@@ -224,6 +227,19 @@ def specs_styles(tier):
     return out
 
 
+def specs_negexp3(tier):
+    """A negative three-digit-exponent value at every position of full and partial records of variables."""
+    out = []
+    for nvar in range(1, 9):
+        for pos in range(nvar):
+            for n, perm, (timing, reset) in itertools.product((1, 2), (False, True), [(False, True), (True, False)]):
+                for nm in numvar_modes(nvar):
+                    out.append(mk(n, nvar, 'negexp3', 'val', perm, 'small', timing, reset, 'conv0num', nm, pos=pos))
+    for nvar, pos in ((12, 3), (12, 7), (12, 11), (9, 8)):
+        out.append(mk(3, nvar, 'negexp3', 'val', False, 'none', True, False, 'conv2', 'exact', pos=pos))
+    return out
+
+
 def specs_trnoperm(tier):
     """Flavour TOUGHREACT set on the object, no block with permeabilities (incl. no block at all)."""
     return [mk(n, nvar, 'mixed', 'val', 'tr-none', seq, timing, reset, 'conv0num', 'exact')
@@ -256,7 +272,7 @@ def specs_shipped(tier):
 
 
 GROUPS = [('cross', specs_cross, 64), ('empty', specs_empty, 1), ('many', specs_many, 12), ('dev', specs_dev, 2),
-          ('styles', specs_styles, 6), ('reuse', specs_reuse, 2), ('trnoperm', specs_trnoperm, 1),
+          ('styles', specs_styles, 6), ('reuse', specs_reuse, 2), ('trnoperm', specs_trnoperm, 1), ('negexp3', specs_negexp3, 4),
           ('shipped', specs_shipped, 11), ('order', lambda tier: specs_order(tier), 4)]
 
 
@@ -327,7 +343,12 @@ def model(spec):
             for j in ((0, 1, 2) if perm == 'zall' else (int(perm[1]),)):
                 k[j] = 0.0
         nseq, nadd = SEQ[seq]
-        if spec['form'] == 'lastzero':
+        if spec['form'] == 'negexp3':
+            # one negative value with a three-digit exponent at position spec['pos'], full-precision values around it
+            vs = [value('pos', b, i) for i in range(nvar)]
+            p = spec['pos']
+            vs[p] = -(1.2345678901234 + 0.0101 * b) * (10.0 ** (-100 - p) if b % 2 == 0 else 10.0 ** (100 + p))
+        elif spec['form'] == 'lastzero':
             # an exact zero (minus zero in odd blocks) as the LAST value of every record of variables
             vs = [((-0.0 if b % 2 else 0.0) if (i % 4 == 3 or i == nvar - 1) else value('pos', b, i)) for i in range(nvar)]
         else:
@@ -397,6 +418,15 @@ class Findings(object):
         self.items.append(('C13|%s|%s|%s' % (self.site, clause, cls), what))
 
 
+def vdigits(m):
+    """Significant digits a primary variable keeps in its 20 columns: 14 (13 decimals), except that a NEGATIVE value
+    with a THREE-digit exponent needs 21 columns at 13 decimals and is, by design of the writer's width guard,
+    printed with 12 - that one value, to its printed digits; nothing else in the record may be affected."""
+    if m < 0 and m == m and (abs(m) >= 1e100 or abs(m) < 1e-99):
+        return 13
+    return 14
+
+
 def close(got, want, tol):
     if got is None or want is None:
         return got is None and want is None
@@ -444,7 +474,7 @@ def cmp_file(M, R, long_form, C, F):
                     F.add('permeability', 'block %r permeability %r written as %r'
                           % (mb['name'], mb['perm'], [p[0] for p in rb['permeability']]), C['perm'])
         for i, ((v, u), m) in enumerate(zip(rb['variables'], mb['vars'])):
-            if not close(v, m, fc.half_unit('E', 14, m)):
+            if not close(v, m, fc.half_unit('E', vdigits(m), m)):
                 F.add('variable', 'block %r variable %d = %r written as %r' % (mb['name'], i, m, v), C['vars'])
     if long_form:
         if R['end'] != '+++' or R['timing'] is None:
@@ -498,7 +528,7 @@ def cmp_mem(M, D, expect_timing, C, F, ddelta=0):
                   % (mb['name'], len(mb['vars']), len(db['vars']), db['vars'][:13]), C['vars'])
         else:
             for i, (v, m) in enumerate(zip(db['vars'], mb['vars'])):
-                if not close(v, m, fc.half_unit('E', 14 + ddelta, m)):
+                if not close(v, m, fc.half_unit('E', vdigits(m) + ddelta, m)):
                     F.add('variable', 'block %r variable %d = %r came back as %r' % (mb['name'], i, m, v), C['vars'])
     want_sim = 'TOUGHREACT' if M['toughreact'] else 'TOUGH2'
     if D['simulator'] != want_sim and not M.get('object_simulator'):
